@@ -283,6 +283,8 @@ fn main() {
     let recs = cat::dtls_records();
     let nrecs = recs.len();
     sink.merge(struct_sweep(&run, &[&DTLS_RECORD], &recs, run.tier.pick(1, 2), &sfx, 48, &extra));
+    let magic: Vec<vcommon::en::W> = cat::magic_hellos().into_iter().filter(|w| w.lens.first().map_or(false, |l| l.label == "dtls_length")).collect();
+    sink.merge(struct_sweep(&run, &[&DTLS_HANDSHAKE], &magic, 0, &sfx, 64, &extra));
     for style in [1u8, 3, 4] {
         use vcommon::en::with_fill_style as wfs;
         sink.merge(struct_sweep(&run, &[&DTLS_HANDSHAKE], &wfs(style, cat::dtls_handshake_messages), 0, &sfx, 64, &extra));
